@@ -776,7 +776,7 @@ def run_property(prop, module, tier, level, assumptions, trusted=None, extra_cov
         "wall_s": round(wall, 2),
         "violations": len(seen),
     }
-    if not only:
+    if not only and not os.environ.get("VERIF_NO_EVIDENCE"):  # (seed / mutation runs on shadow copies must not rewrite the evidence)
         os.makedirs(EVIDENCE_DIR, exist_ok=True)
         with open(os.path.join(EVIDENCE_DIR, f"{prop}.json"), "w") as f:
             json.dump(ev, f, indent=1, default=str)
